@@ -75,7 +75,7 @@ func ffcStream(rng *vRNG, c detConfig, n int, pFFC, pReset int, base uint16) []d
 }
 
 func randomPixLike(rng *vRNG, f detFrame, base uint16) detFrame {
-	g := detFrame{TimeOn: f.TimeOn, LastFFC: f.LastFFC, Reset: f.Reset}
+	g := detFrame{TimeOn: f.TimeOn, LastFFC: f.LastFFC, Reset: f.Reset, FFCState: f.FFCState}
 	if f.Reset {
 		return g
 	}
@@ -202,6 +202,11 @@ func TestVerif_C09(t *testing.T) {
 			}
 			c.Count("crafted_weight_pairs", 1)
 		}
+		ffcStated := 0
+		if idx%4 >= 2 {
+			// the telemetry also carries the camera's FFC state word; the rule is the 10 s one alone
+			ffcStated = paintFFCStates(pfx, int(idx%4-2)) + paintFFCStates(pfx2, int(idx%4-2)) + paintFFCStates(suffix, int(idx%4-2))
+		}
 		badAt := -1
 		c.Case(idx, func() interface{} {
 			all := append(append([]detFrame{}, pfx...), suffix...)
@@ -209,6 +214,7 @@ func TestVerif_C09(t *testing.T) {
 				"history": detStreamDesc(cfg, all, badAt)()}
 		}, func() {
 			a, b := newDetDriver(cfg, via), newDetDriver(cfg, via)
+			c.Count("frames_with_ffc_state_running", int64(ffcStated))
 			prevAff := false
 			for i := range pfx {
 				got := a.feed(&pfx[i])
